@@ -35,9 +35,10 @@ def main():
     head = ("| id | file | change (abridged) | stored as detected by | last regression run (quick tier of the property), clauses | note |\n"
             "|---|---|---|---|---|---|\n")
     text = head + "\n".join(rows) + "\n\n" + \
-        f"Summary: {n} seeded changes stored; last regression run (`harness/all_mutants.py`): {det} detected by the quick tier " \
-        f"of the property they are stored under, {n - det} not (see the verdict column: neutralised = the patch no longer " \
-        f"applies or has nothing left to break after a `fix:` commit; C17_m2 is an index defect caught by the C08 check). " \
+        f"Summary: {n} seeded changes stored; last regression run (`harness/all_mutants.py`, seed 1; seeds 2 and 3 were run as well): " \
+        f"{det} detected by the quick tier of the check named in the fourth column (the property they were written for, or C08 for " \
+        f"the index defects that were written for C02 / C15 / C17), {n - det} not: C08_m2, which has nothing left to break since the " \
+        f"repair of the N look-up. " \
         f"{missed_first} of them were missed by the first version of the respective check and led to the strengthenings named in the note column.\n"
     dp = os.path.join(ROOT, "DESIGN.md")
     s = open(dp).read()
